@@ -60,7 +60,7 @@ BF = ("BOUNDED stand-in rcheck/fragment (labelled bounded in the evidence, never
       "every write path incl. bulk/roaring/value imports, snapshots) is executed on seeded random write sequences over a small column/row/value domain and every read "
       "(row, bit, rows, forEachBit, minRow/maxRow, Blocks checksums, top, value, rangeOp/between, sum/min/max, file-vs-memory) is compared with a map model. ")
 BP = ("BOUNDED stand-in rcheck/pql (labelled bounded, never counted as proved): random PQL write sequences on a 1-node and a 3-node in-process cluster; every read query "
-      "(Row/Range/BSI conditions, set algebra, Count, TopN, Rows, GroupBy with paging, Min/Max/Sum, MinRow/MaxRow, time ranges, Clear) is compared with a map model and between the clusters. ")
+      "(Row/Range/BSI conditions, set algebra incl. Shift, Count, TopN with listed and repeated ids, Rows incl. time ranges with limits, GroupBy with paging, Min/Max/Sum, MinRow/MaxRow, time ranges, Clear, bulk imports with and without time stamps) is compared with a map model and between the clusters. ")
 
 CLAIMS.update({
  "C03": ("proof",
@@ -72,7 +72,7 @@ CLAIMS.update({
  "C07": ("proof",
    "Deductive part: the single-bit write paths (*fragment).unprotectedSetBit / unprotectedClearBit against the abstract stored set ($set of the storage bitmap): exactly the addressed position changes, `changed` is exact, "
    "and the coherence protocol holds afterwards (no cached checksum for the row's block, no cached row object, cache count recomputed from storage, maxRowID >= row). All other write paths and every read path are covered only by the bounded stand-in. " + BF,
-   TRUST + "roaring.Bitmap Add/Remove/CountRange, cache.Add, bitmapCache.Add and incrementOpN (snapshot I/O) are trusted contracts over ghost state; row ids are assumed < 2^44-1.",
+   TRUST + "roaring.Bitmap.Add and Bitmap.Remove are verified down to the container kernels (the abstract set is tied to the containers by a ghost redefinition; op.apply through its verified variant contract for remove records); still trusted: Bitmap.CountRange, Bitmap.writeOp, the Containers interface contracts, cache.Add, bitmapCache.Add and incrementOpN (snapshot I/O); cardinality side conditions roomOK/singleOK and well-formedness/coupling of the storage bitmap are preconditions; row ids are assumed < 2^44-1.",
    "contract-based deductive verification (protocol contracts over ghost state) + bounded stand-in"),
  "C10": ("proof",
    "Deductive part: after unprotectedSetBit / unprotectedClearBit changed a bit of row r, f.checksums has no entry for block r/100 and is untouched when nothing changed (the cached checksum can never be stale through these paths). "
@@ -157,7 +157,7 @@ CLAIMS.update({
 })
 CLAIMS["C01"] = (CLAIMS["C01"][0], CLAIMS["C01"][1] + " Added: every single-value mutation kernel (arrayAdd/Remove, bitmapAdd/Remove, runAdd/Remove, arrayToBitmap, Container.add/remove): exactly v changes, the changed flag is exact, n moves by exactly one, frozen sources are never written, frames and storage ownership; and Bitmap.Contains / Bitmap.DirectAdd / Bitmap.remove against the container map (bmem): Contains returns membership, DirectAdd/remove change exactly v, keep every container well formed and keep containers separated, so any history of point updates keeps Contains equal to the set obtained by applying the mutations in order.", CLAIMS["C01"][2] + " Containers.Get/GetOrCreate/Put are trusted interface contracts over the ghost map $m (what C02 proves of both implementations); bitmapToArray is trusted; cardinality side conditions (roomOK, singleOK: consequences of n == |set|) are preconditions, not proved invariants.", CLAIMS["C01"][3])
 CLAIMS["C02"] = (CLAIMS["C02"][0], CLAIMS["C02"][1] + " Added: n-coherence steps of all mutation kernels and the Bitmap-level point operations (see C01).", CLAIMS["C02"][2], CLAIMS["C02"][3])
-BR = ("BOUNDED addition rcheck/roaring (labelled bounded, never counted as proved): model-based execution of the real Bitmap API against a set model over 15 construction flavours (slice/B-tree, optimized, mapped, frozen, cloned, imported, official-decoded ...) and boundary-heavy container keys/contents: every read, 24 set operations over all 9 container-type pairs, random mutation histories with all reads re-compared after each step, isolation of derived values, encode/decode round trips incl. a hand-written official-format encoder, op-log replay. ")
+BR = ("BOUNDED addition rcheck/roaring (labelled bounded, never counted as proved): model-based execution of the real Bitmap API against a set model over 16 construction flavours (slice/B-tree, optimized, mapped, frozen, cloned, imported, official-decoded, an Intersect result that keeps emptied containers ...) and boundary-heavy container keys/contents: every read, 24 set operations over all 9 container-type pairs, random mutation histories with all reads re-compared after each step, isolation of derived values, encode/decode round trips incl. a hand-written official-format encoder, op-log replay. ")
 for _k in ("C01", "C02", "C03", "C04", "C05"):
     CLAIMS[_k] = (CLAIMS[_k][0], CLAIMS[_k][1] + " " + BR, CLAIMS[_k][2], CLAIMS[_k][3] + " + bounded stand-in")
 CLAIMS["C05"] = (CLAIMS["C05"][0], CLAIMS["C05"][1] + " Also rcheck/fragment: after every sequence the fragment file (snapshot + op log) is decoded and compared with the in-memory bitmap.", CLAIMS["C05"][2], CLAIMS["C05"][3])
